@@ -4,7 +4,7 @@
    specification of the primitive float operations (the FloatAxioms module), the classical real numbers used by Flocq
    (the ClassicalDedekindReals module, Classical_Prop.classic, functional_extensionality_dep) and the primitives. *)
 From Coq Require Import ZArith List Bool.
-From QE Require Import Base.Num C10.Model C10.Proofs C10.Proofs2 C10.Proofs3 C10.FloatConsts C10.FloatFacts C10.FloatFacts2.
+From QE Require Import Base.Num C10.Model C10.Proofs C10.Proofs2 C10.Proofs3 C10.FloatConsts C10.Proofs4 C10.FloatFacts C10.FloatFacts2 C10.FloatFacts3.
 From QE Require C10.Findings.
 Import ListNotations.
 Open Scope Z_scope.
@@ -91,6 +91,37 @@ Theorem C10_bracket_least_binary64 : forall (row : list PrimFloat.float) v k x,
   (forall j cj, (Z.to_nat k <= j)%nat -> nth_error (cumsum row) j = Some cj -> PrimFloat.ltb v cj = true).
 Proof. exact bracket_least_binary64. Qed.
 Print Assumptions C10_bracket_least_binary64.
+
+(* ---- DiscreteRV.draw (scale min(Q[-1],1)), the DiscreteRV object under ANY sequence of q re-assignments and
+   draws, quantecon.random.draw and mc_sample_path, for binary64 with no arithmetic hypothesis: admissible q /
+   rows have entries 0 <= p and a float cumulative sum total in [2^-1021, 2^1000] *)
+Theorem C10_drv_draw_binary64 : forall (q us : list PrimFloat.float), row_ok scal64 q -> Forall unitv us ->
+  exists ks, drv_draw_Q (cumsum q) us = Ok ks /\ Forall2 (draw_post q) us ks.
+Proof. exact drv_draw_binary64. Qed.
+Print Assumptions C10_drv_draw_binary64.
+
+Theorem C10_drv_run_binary64 : forall (ops : list (@drv_op PrimFloat.float)) q0,
+  row_ok scal64 q0 -> Forall (op_ok scal64) ops -> drv_valid q0 ops (drv_run q0 ops).
+Proof. exact drv_run_binary64. Qed.
+Print Assumptions C10_drv_run_binary64.
+
+Theorem C10_qe_draw_binary64 : forall (q us : list PrimFloat.float), row_ok scal64 q -> Forall unitv us ->
+  exists ks, qe_draw (cumsum q) us = Ok ks /\ Forall2 (fun u k => step_post q u k) us ks.
+Proof. exact qe_draw_binary64. Qed.
+Print Assumptions C10_qe_draw_binary64.
+
+Theorem C10_mc_sample_path_binary64 : forall (P : list (list PrimFloat.float)) (init : Z + list PrimFloat.float) ts stream,
+  matrix_ok scal64 P -> 0 < zlen P -> 1 <= ts -> Forall unitv stream ->
+  match init with inl x0 => 0 <= x0 < zlen P | inr psi => row_ok scal64 psi /\ zlen psi = zlen P /\ stream <> [] end ->
+  exists x0 s row,
+    mc_sample_path (Dense P) init ts stream = Ok row /\
+    match init with
+    | inl x => x0 = x /\ s = stream
+    | inr psi => exists u0, stream = u0 :: s /\ step_post psi u0 x0
+    end /\
+    valid_path P x0 (firstn (Z.to_nat (ts - 1)) s) row.
+Proof. exact mc_sample_path_binary64. Qed.
+Print Assumptions C10_mc_sample_path_binary64.
 
 (* the hypotheses are satisfiable: the 10 x 10 matrix of 0.1's (float cumulative sum 0.9999999999999999) and the
    uniforms 1-2^-53 and 0 *)
